@@ -185,6 +185,7 @@ pub fn main(tier: &str, seed: u64, outdir: &str) {
     }
 
     search_cases(tier, seed, &mut cases, &mut rep);
+    collector_cases(tier, seed, &mut rep);
     cases.write(&format!("{outdir}/C07.cases")).unwrap();
     rep.write(&format!("{outdir}/C07.report.json"));
 }
@@ -262,6 +263,40 @@ fn search_oracle(run: &SearchRun, target: f64, init: f64) -> Option<String> {
     None
 }
 
+/// The REAL AcceptanceRateCollector behind the REAL nuts::draw on scripted orbits with divergent leapfrogs: both running means must be the
+/// plain average, over every leapfrog of the trajectory, of min(1, e^-dE) resp. 2 min(1, e^-dE) / (1 + e^-dE), a divergent step counting 0.
+fn collector_cases(tier: &str, seed: u64, rep: &mut Report) {
+    let n = if tier == "thorough" { 20000 } else { 1500 };
+    for case in 0..n { collector_cases_one(seed, case, rep); }
+}
+
+fn collector_cases_one(seed: u64, case: u64, rep: &mut Report) {
+    use crate::c01::{opts, run_draw, OrbitSpec};
+    use crate::mock::Ev;
+    {
+        let mut r = Sm::new(seed, "C07-collector", case);
+        let spec = OrbitSpec::random(&mut r, case % 2 == 0);
+        let maxdepth = 1 + r.below(5);
+        let tape: Vec<u64> = (0..64).map(|_| r.next()).collect();
+        let origin = r.below(9) as i64 - 4;
+        let run = run_draw(&spec, origin, &opts(maxdepth, 0, true, 0), &tape);
+        let leaps: Vec<(u8, f64)> = run.events.iter().filter_map(|e| match e { Ev::Leap { outcome, energy_err, .. } if *outcome != 2 => Some((*outcome, *energy_err)), _ => None }).collect();
+        if leaps.is_empty() { return; }
+        rep.evaluations += 1;
+        let (mut m, mut ms) = (0.0f64, 0.0f64);
+        for (o, e) in &leaps { if *o == 0 { let d = -*e; let a = d.min(0.0).exp(); m += a; ms += 2.0 * a / (1.0 + d.exp()); } }
+        let k = leaps.len() as f64;
+        let (em, ems) = (m / k, ms / k);
+        let (gm, gms, cnt, _) = run.collector;
+        let bad = cnt != leaps.len() as u64 || !((gm - em).abs() <= 1e-12) || !((gms - ems).abs() <= 1e-12) || !(0.0..=1.0).contains(&gm) || !(0.0..=1.0).contains(&gms);
+        if leaps.iter().any(|l| l.0 == 1) { rep.nontrivial += 1; rep.hit("collector.with_divergence"); } else { rep.hit("collector.clean"); }
+        if bad {
+            rep.violation("collector.mean", &format!("acceptance collector after a trajectory of {} leapfrogs ({} divergent): mean {gm} (expected {em}), symmetric mean {gms} (expected {ems}), count {cnt}", leaps.len(), leaps.iter().filter(|l| l.0 == 1).count()),
+                json!({"kind": "collector", "seed": seed, "case": case}));
+        }
+    }
+}
+
 fn search_cases(tier: &str, seed: u64, cases: &mut Cases, rep: &mut Report) {
     let n = if tier == "thorough" { 30000 } else { 600 };
     for case in 0..n {
@@ -335,6 +370,14 @@ pub fn replay(v: &serde_json::Value) -> bool {
             let s = *out.last().unwrap();
             println!("replay: smoothed={m} step {prev} -> {s}");
             (m > 0.0) != (s > prev)
+        }
+        "collector" => {
+            let mut rep = Report::new("replay");
+            // the case is a deterministic function of (seed, case); re-run the sweep up to it
+            let (sd, cs) = (v["seed"].as_u64().unwrap(), v["case"].as_u64().unwrap());
+            collector_cases_one(sd, cs, &mut rep);
+            println!("replay: {:?}", rep.violations.iter().map(|x| x["what"].as_str().unwrap_or("").to_string()).collect::<Vec<_>>());
+            !rep.violations.is_empty()
         }
         "search" => {
             let sv = &v["script"];
